@@ -518,6 +518,7 @@ class AioWorld(WorldBase):
                 world.servers.append(tcp)
                 world.tcp_of_conn[k] = tcp
                 world.handler_tasks[k] = asyncio.current_task()
+                world._watch_handler(k, asyncio.current_task())
                 await tcp.run()
 
             reader = asyncio.StreamReader(limit=2**16, loop=loop)
@@ -525,6 +526,14 @@ class AioWorld(WorldBase):
         tr = FakeTransport(loop, protocol, rec, sock, server, bool(opts.get("tls")), opts.get("alpn"), ctx)
         self.transports[k] = tr
         rec.protocol = protocol
+
+    def _watch_handler(self, k: int, task: Any) -> None:
+        def done(_t: Any) -> None:
+            rec = self.conns.get(k)
+            if rec is not None and not self.finished and rec.handler_done_at is None:
+                rec.handler_done_at = self.now()
+
+        task.add_done_callback(done)
 
     # ---- environment events
     def enabled(self, ev: tuple) -> bool:
@@ -747,6 +756,7 @@ def _install_tcp_wrapper() -> None:
                 if k is not None:
                     w.tcp_of_conn[k] = self
                     w.handler_tasks[k] = asyncio.current_task()
+                    w._watch_handler(k, asyncio.current_task())
 
     arun.TCPServer = RecordingTCPServer
 
